@@ -375,6 +375,15 @@ def api_stream(ck, qr, numpy):
                 identities(numpy, d_ex, "get_RelaxationTensor(%s) exciton basis" % tag, ck, inp, "api-exciton:" + tag)
             except Exception as e:
                 ck.fail("raises:basis:%s" % tag, "reading the tensor in the exciton basis raised %r" % (e,), inp)
+            if theory in ("standard_Foerster", "noneq_Foerster") and hasattr(RT, "initialize"):
+                # the public initialize() called again on the same object (a refresh after a parameter change): the same generator again
+                try:
+                    RT.initialize()
+                    d_re = numpy.array(RT.data)
+                    identities(numpy, d_re, "get_RelaxationTensor(%s) after a second initialize()" % tag, ck, inp, "api:reinitialized:" + tag)
+                    ck.case(("api-reinit", s, tag), nontrivial=True, kind="reinitialize", theory=theory)
+                except Exception as e:
+                    ck.fail("raises:reinitialize:%s" % tag, "a second initialize() raised %r" % (e,), inp)
             if opts.get("secular_relaxation") and d_site.ndim == 4:
                 # secularised in the exciton basis by the builder; secularising the same object again in the site basis
                 before = numpy.array(RT.data).copy()
